@@ -50,7 +50,7 @@ func (c08Engine) Generate(seed uint64, tier string) *simrun.Case {
 	c.Knobs["waitfirst"] = int64(r.Intn(2)) // main waits for the WaitGroup before (1) or after (0) draining the channel
 	// program shape: 0 = workers are closures started in main; 1, 2 = workers are started by a function called from
 	// main (1) or from a function called from main (2) while main goes on declaring locals, and they call named functions
-	c.Knobs["nested"] = []int64{0, 0, 1, 2}[r.Intn(4)]
+	c.Knobs["nested"] = []int64{0, 0, 1, 2, 3}[r.Intn(5)]
 	c.Knobs["deepscope"] = []int64{1, 1, 1, 0}[r.Intn(4)] // ego.runtime.deep.scope: on in the default profile, `ego test` and the server
 	for wi := 1; wi <= w; wi++ {
 		n := 1 + r.Intn(5)
@@ -169,6 +169,26 @@ func c08NestedProgram(c *simrun.Case) (src, want string) {
 		if op.C >= 1 && op.C <= w {
 			per[op.C]++
 		}
+	}
+	if c.Knob("nested", 1) == 3 {
+		// shape 3: the workers are closures whose go statements are the FIRST statements of a named function
+		// without parameters or locals (its call frame has resolved no name yet when it becomes shared); the
+		// launcher then resolves package-level names itself while the closures start up. All shared state is
+		// package-level and used through a channel and a WaitGroup only.
+		var b strings.Builder
+		b.WriteString("package main\nimport \"fmt\"\nimport \"sync\"\n\n")
+		fmt.Fprintf(&b, "var wg sync.WaitGroup\nvar ch = make(chan, %d)\nvar base = 7\n\n", c.Knob("chancap", 1))
+		b.WriteString("func helper(n int) int {\n\treturn n + 1\n}\n\n")
+		b.WriteString("func start() {\n")
+		total := 0
+		for wi := 1; wi <= w; wi++ {
+			k := 3 + 3*per[wi]
+			total += k + wi + 7
+			fmt.Fprintf(&b, "\tgo func() {\n\t\tt := 0\n\t\tfor i := 0; i < %d; i = i + 1 {\n\t\t\tt = helper(t)\n\t\t}\n\t\tch <- t + %d + base\n\t\twg.Done()\n\t}()\n", k, wi)
+		}
+		b.WriteString("\ty := base + 1\n\tz := y + base\n\tif z < 0 {\n\t\tfmt.Println(z)\n\t}\n}\n\n")
+		fmt.Fprintf(&b, "func main() {\n\twg.Add(%d)\n\tstart()\n\ts := 0\n\tfor i := 0; i < %d; i = i + 1 {\n\t\ts = s + <-ch\n\t}\n\twg.Wait()\n\tfmt.Println(s, base)\n}\n", w, w)
+		return b.String(), fmt.Sprintf("%d 7\n", total)
 	}
 	var b strings.Builder
 	b.WriteString("package main\nimport \"fmt\"\nimport \"sync\"\n\n")
